@@ -31,7 +31,7 @@ P = {
  "C08": ("plaintext fallback only on os.ErrNotExist, ErrNotExist only when no certificate string was found, only ciphertext carries the assertion, fresh key/IV buffers filled from RandReader with the error checked, decrypt branch goes through the same validator with every error a reject",
          "confidentiality of RSA-OAEP/AES, absence of user data elsewhere in the form bytes",
          "reject rows + who-may-read + provenance of key/IV buffers", "4 C08"),
- "C09": ("nil/bounds/precondition guards on every dereference of an optional (pointer) schema field, document root, path-query result, slice index and cipher precondition reachable from the consuming entry points; bounded inflate; opaque error type discipline; no input-triggerable panic instruction",
+ "C09": ("nil/bounds/precondition guards on every dereference of an optional (pointer) schema field, document root, path-query result, slice index and cipher precondition reachable from the consuming entry points; bounded inflate; opaque error type discipline; no input-triggerable panic instruction; pointer slices sized up front are stored on every iteration of their filling loop (no nil element among the trust roots)",
          "hangs, panics inside dependencies, allocation bounds other than inflate",
          "guard-implication over path conditions (API-precondition and nil-dominance rules), who-may-call, return discipline", "4 C09"),
  "C10": ("offered algorithms are registered decrypters, cipher parameters match the W3C table, Encrypt/Decrypt framing agreement per cipher, plaintext flows into the cipher call, padding rows, digest provenance",
